@@ -228,6 +228,30 @@ func realTransportSwaps(ctx context.Context, checkLen bool, stats map[string]int
 			_ = node.Process.OnAbort(ctx, 2, acct)
 		}
 	}
+	// many failed swaps in a row must not use anything up: the next one is still answered
+	rounds := 40
+	peer.reply = func(*pb.ContributeRequest) (*pb.ContributeResponse, error) {
+		return nil, errors.New("scripted refusal")
+	}
+	for i := 0; i <= rounds; i++ {
+		acct := fmt.Sprintf("Wallet 3/rep%d", i)
+		done := make(chan error, 1)
+		go func() {
+			if err := node.Process.OnPrepare(ctx, 2, acct, []byte("pass"), 2, eps); err != nil {
+				done <- err
+				return
+			}
+			_ = node.Process.OnExecute(ctx, 2, acct)
+			done <- node.Process.OnAbort(ctx, 2, acct)
+		}()
+		select {
+		case <-done:
+			stats["real-transport.repeated-failures"]++
+		case <-time.After(20 * time.Second):
+			fails = append(fails, fmt.Sprintf("after %d failed swaps over the real gRPC sender the next generation was never answered (20 s): the instance stopped serving key-generation requests", i))
+			return fails, lines, n, nil
+		}
+	}
 	return fails, lines, n, nil
 }
 
